@@ -130,7 +130,6 @@ def validate(
                     (p.name for p in signature.parameters.values() if p.kind is inspect.Parameter.VAR_POSITIONAL),
                     None,
                 )
-                used_args = []
 
                 try:
                     bound_args = signature.bind_partial(*args).arguments
@@ -139,10 +138,15 @@ def validate(
 
                 for k in bound_args:
                     if k == var_positional:
-                        for arg, parameter in zip(
-                                [a for a in args if a not in used_args],
-                                [p for p in parameters if p.name not in used_parameter_names]
-                        ):
+                        # the surplus positionals are exactly what was bound to the VAR_POSITIONAL parameter
+                        surplus = bound_args[k]
+                        unused = [p for p in parameters if p.name not in used_parameter_names]
+
+                        if strict and len(surplus) > len(unused):
+                            raise TooManyArguments(f'Got more arguments expected: {len(surplus)} surplus positional '
+                                                   f'arguments but only {len(unused)} parameters left.')
+
+                        for arg, parameter in zip(surplus, unused):
                             print(f'Validate value {arg} with {parameter}')
                             result[parameter.name] = parameter.validate(arg)
                             used_parameter_names.append(parameter.name)
@@ -150,7 +154,6 @@ def validate(
                         parameter = parameter_dict[k]
                         result[k] = parameter.validate(value=bound_args[k])
                         used_parameter_names.append(parameter.name)
-                        used_args.append(bound_args[k])
                     else:
                         if strict and k != receiver_name:
                             raise TooManyArguments(f'Got more arguments expected: No parameter found for argument {k}')
